@@ -175,6 +175,7 @@ func RunC03(rep *report.Report, tier string) {
 var c03Inits = map[string][]string{
 	"groups-installed":  {"ADD nh1@D a", "ADD nh2@D", "ADD nh1@V", "ADD nhg1@D {1}", "ADD nhg2@D {2}", "ADD nhg1@V {1}"},
 	"entries-installed": {"ADD nh1@D a", "ADD nh2@D", "ADD nh1@V", "ADD nhg1@D {1}", "ADD nhg2@D {2}", "ADD nhg1@V {1}", "ADD v4 p@D ->1", "ADD v4 p@V ->1", "ADD v6 q@D ->2", "ADD mpls 100@D ->1"},
+	"cross-instance":    {"ADD nh1@D a", "ADD nh1@V", "ADD nhg1@D {1}", "ADD nhg1@V {1}", "ADD v4 p@D ->1@V", "ADD v4 p@V ->1@D"},
 }
 
 var c16Letters = []string{
@@ -201,5 +202,30 @@ func RunC16(rep *report.Report, tier string) {
 			o := &Options{Letters: letters, Checks: Checks{Hooks: true}, Hook: hc, Init: Alphabet(ribInits[name]...)}
 			Search(rep, fmt.Sprintf("rib/hook-config-%d/from-%s", hc, name), o, depth-1, dl)
 		}
+	}
+}
+
+var c07Letters = []string{
+	"ADD nh1@D a", "ADD nh1@D b", "DELETE nh1@D", "ADD nh1@V",
+	"ADD nhg1@D {1}", "ADD nhg1@D {1,2}", "ADD nh2@D", "DELETE nhg1@D", "ADD nhg1@V {1}",
+	"ADD v4 p@D ->1", "ADD v4 p@D ->1 meta", "ADD v4 p@D ->1@V", "DELETE v4 p@D", "ADD v4 p@V ->1",
+	"ADD v6 q@D ->1", "DELETE v6 q@D", "ADD mpls 100@D ->1", "REPLACE mpls 100@D ->1@V", "DELETE mpls 100@D",
+	"FLUSH D", "FLUSH V", "FLUSH all",
+}
+
+// RunC07Hist is the history tier of C07: the Get stream after every step of every history.
+func RunC07Hist(rep *report.Report, tier string) {
+	depth := 3
+	dl := Budget(tier, 100*time.Second, 20*time.Minute)
+	if tier == "thorough" {
+		depth = 5
+	}
+	letters := Alphabet(c07Letters...)
+	rep.Set("history_alphabet", Names(letters))
+	o := &Options{Letters: letters, Checks: Checks{GetFold: true}}
+	Search(rep, "get-after-every-step/from-empty", o, depth, dl)
+	for _, name := range []string{"entries-installed", "held-operations"} {
+		o := &Options{Letters: letters, Checks: Checks{GetFold: true}, Init: Alphabet(ribInits[name]...)}
+		Search(rep, "get-after-every-step/from-"+name, o, depth, dl)
 	}
 }
